@@ -101,6 +101,13 @@ func varNodes(it *ref.Item) int {
 
 func c16Item(c *ctx, cs c16Case, node ast.ItemNode, model *ref.Item) {
 	s := real.SnapItem(node)
+	// the observers are functions of the object: asked again they answer the same (map iteration order must not show)
+	for rep := 0; rep < 2; rep++ {
+		if d := s.Diff(real.SnapItem(node)); d != "" {
+			c.Violation("C16/observer-not-deterministic/"+cs.Source, d, cs)
+			return
+		}
+	}
 	nt := len(s.Vars) >= 2 && (model == nil || varNodes(model) >= 2)
 	c.Note(rng.Mix(rng.HashStr(s.Str), rng.HashStr(cs.Source)), nt)
 	c.Class("object/" + cs.Source)
